@@ -11,6 +11,7 @@ import (
 
 	"istio.io/istio/pilot/pkg/features"
 	"istio.io/istio/pilot/pkg/model"
+	netcore "istio.io/istio/pilot/pkg/networking/core"
 	v3 "istio.io/istio/pilot/pkg/xds/v3"
 	"istio.io/istio/pkg/config/host"
 	"istio.io/istio/pkg/simhook"
@@ -146,11 +147,23 @@ func runC06(t *testing.T, r *engine.Run) {
 				if d[0].field != "" {
 					key += ":" + d[0].field
 				}
+				if os.Getenv("VERIF_DEBUG_DR") != "" {
+					for i := max(0, len(c.recvLog)-14); i < len(c.recvLog); i++ {
+						e := c.recvLog[i]
+						r.Logf("debug: %s recv[%d] step=%d %s version=%s names=%v", c.name, i, e.step, shortType(e.typeURL), e.version, e.names)
+					}
+				}
 				if h := os.Getenv("VERIF_DEBUG_DR"); h != "" { // analysis aid: which DestinationRules each proxy's scope holds for a host
 					for _, con := range inst.fds.Discovery.AllClients() {
 						p := con.Proxy()
 						dr := p.SidecarScope.DestinationRule(model.TrafficDirectionOutbound, p, host.Name(h))
 						r.Logf("debug: %s scope=%s/%s rule for %s: %v", p.ID, p.SidecarScope.Namespace, p.SidecarScope.Name, h, dr.GetFrom())
+						rs, _ := netcore.NewConfigGenerator(model.DisabledCache{}).BuildHTTPRoutes(p, &model.PushRequest{Push: p.LastPushContext, Forced: true}, []string{"80"})
+						for _, x := range rs {
+							r.Logf("debug: %s regenerated route 80 now: allow_any=%v block_all=%v", p.ID, strings.Contains(string(x.Resource.Value), "allow_any"), strings.Contains(string(x.Resource.Value), "block_all"))
+						}
+						r.Logf("debug: %s last push %s mesh otp=%v scope otp=%v; global push %s mesh otp=%v; watcher otp=%v", p.ID, p.LastPushContext.PushVersion, p.LastPushContext.Mesh.GetOutboundTrafficPolicy().GetMode(),
+							p.SidecarScope.OutboundTrafficPolicy.GetMode(), inst.fds.Env().PushContext().PushVersion, inst.fds.Env().PushContext().Mesh.GetOutboundTrafficPolicy().GetMode(), inst.fds.Env().Mesh().GetOutboundTrafficPolicy().GetMode())
 					}
 				}
 				r.Fail("c06.differs_from_cacheless_generation", key, "after %s: proxy %s holds something a cache-disabled control plane does not generate for it:%s", after, c.name, fmtDiffs(d))
